@@ -353,6 +353,25 @@ mode (`sharded_update_fn` transforms the gradient before the new roots exist), t
 refresh and gate of this step otherwise (`update_fn`). -/
 def usedPreconds {π : Type} (sharded : Bool) (before after : π) : π := if sharded then before else after
 
+section Update
+variable [Add α] [Mul α] [Sub α] [Div α] [Neg α] [LT α] [DecidableLT α] [BEq α] [OfNat α 0] [OfNat α 1]
+  [Inhabited α]
+
+/-- `Spec`: the update half of one call for one parameter, from the preconditioners stored `before` and `after`
+the step; `none` models a failed assert of `merge_partitions`. -/
+def specUpdate (sqrt : α → α) (natCast : Nat → α) (sharded : Bool) (G : Geom) (h : Hyper α) (step : Nat)
+    (skip : Bool) (g param : List α) (st : PState α) (before after : List (Mx α)) : Option (TOut α) :=
+  (if skip then some g else specPrecondGrad G (usedPreconds sharded before after) g).map fun pg =>
+    specTransform sqrt natCast h step skip g param st pg
+
+/-- `Low`: `_transform_grad` on `preconditioned_grad` -/
+def lowUpdate (sqrt : α → α) (natCast : Nat → α) (sharded : Bool) (G : Geom) (h : Hyper α) (step : Nat)
+    (skip : Bool) (g param : List α) (st : PState α) (before after : List (Mx α)) : Option (TOut α) :=
+  (if skip then some g else lowPrecondGrad G (usedPreconds sharded before after) g).map fun pg =>
+    lowTransform sqrt natCast h step skip g param st pg
+
+end Update
+
 end Generic
 
 end PrecondVerif.DShampoo
